@@ -112,6 +112,8 @@ structure Worker (Stats : Type) where
   outbox : List (OutMsg Stats)
   phase : Phase
   stats : Stats
+  /-- the chunk in whose processing the worker raised (it is never completed) -/
+  lost : Option Nat := none
 
 structure State (Stats : Type) where
   /-- reader: index of the next chunk (`enumerate`) -/
@@ -217,7 +219,7 @@ def step (cfg : Config Chunk Stats Fault) (s : State Stats) : Action → Option 
             -- `process_reads`; `stats += …`; `_send_outfiles(chunk_index, n)`
             some (s.setW w { W with phase := .idle, stats := cfg.add W.stats st, outbox := W.outbox ++ [.result i d] })
           | .error _ =>
-            some (s.setW w { W with phase := .failed, outbox := W.outbox ++ [.workerError] })
+            some (s.setW w { W with phase := .failed, outbox := W.outbox ++ [.workerError], lost := some i })
       | _ => none
     else none
   | .mainRecv w =>
@@ -350,12 +352,12 @@ def explore (cfg : Config Chunk Stats Fault) (good : State Stats → Bool) : Exp
   exploreFrom cfg good (init cfg) 0 {}
 
 /-- concrete instance used by the driver and the examples: chunk = its index, one byte (the index) per file,
-    statistics = number of chunks; the chunks listed in `faulty` make the worker raise -/
+    statistics = `2^index` (the sum shows which chunks were merged); the chunks listed in `faulty` make the worker raise -/
 def toyConfig (nWorkers nChunks : Nat) (faulty : List Nat) (readerFault : Bool) (nFiles : Nat := 1) : Config Nat Nat Unit where
   nWorkers := nWorkers
   chunks := List.range nChunks
   readerFault := readerFault
-  process := fun c => if faulty.contains c then .error () else .ok ((List.range nFiles).map (fun f => [c.toUInt8, f.toUInt8]), 1)
+  process := fun c => if faulty.contains c then .error () else .ok ((List.range nFiles).map (fun f => [c.toUInt8, f.toUInt8]), 2 ^ c)
   add := (· + ·)
   zero := 0
 
